@@ -1,4 +1,6 @@
 import DadiVerif.Lemmas.FromPhiND
+import DadiVerif.Lemmas.FromPhiAdmix
+import DadiVerif.Lemmas.FromPhiInb
 /-!
 # C05 — sampling a spectrum from φ is exact binomial integration on every code path
 
@@ -373,6 +375,46 @@ theorem C05_ND_marginal (ns : List ℕ) (grids : List (Array ℚ)) (hd : grids.l
 
 /-- binomial sampling probabilities sum to one at every (also admixed, also out-of-range) frequency -/
 theorem C05_binom_sum (n : ℕ) (y : ℚ) : ∑ i ∈ range (n+1), bern n i y = 1 := bern_sum n y
+
+/-- **admix_props = identity is the direct path** (2, 3 and 4 dimensions; `propsFn none` is the identity the 3-D/4-D
+    functions use for `admix_props=None`): the nested trapezoid rule of the product of binomial probabilities at the
+    admixed frequencies, with the generated linear forms `admixX`, collapses to the per-axis trapezoid operators. -/
+theorem C05_admix_identity (ns : List ℕ) (g0 g1 g2 g3 : Array ℚ) (φ : List ℕ → ℚ) (idx : List ℕ) :
+    admixND 2 ns ([g0, g1].map fun g => (g.size, gridFn g)) (propsFn none 2) φ idx
+        = sampleND (directOps "" ns [g0, g1]) φ idx
+    ∧ admixND 3 ns ([g0, g1, g2].map fun g => (g.size, gridFn g)) (propsFn none 3) φ idx
+        = sampleND (directOps "" ns [g0, g1, g2]) φ idx
+    ∧ admixND 4 ns ([g0, g1, g2, g3].map fun g => (g.size, gridFn g)) (propsFn none 4) φ idx
+        = sampleND (directOps "" ns [g0, g1, g2, g3]) φ idx :=
+  ⟨admix_identity_two ns g0 g1 φ idx, admix_identity_three ns g0 g1 g2 φ idx, admix_identity_four ns g0 g1 g2 g3 φ idx⟩
+
+/-- **admixed sampling probabilities sum to one**: whatever the proportion matrix `p` (rows need not even sum to one), the
+    total of the admix-path spectrum is the d-fold trapezoid mass of φ -/
+theorem C05_admix_mass (n0 n1 n2 n3 N0 N1 N2 N3 : ℕ) (x0 x1 x2 x3 : ℕ → ℚ) (p : ℕ → ℕ → ℚ) (φ : List ℕ → ℚ) :
+    boxSum [n0 + 1, n1 + 1] (admixND 2 [n0, n1] [(N0, x0), (N1, x1)] p φ) = trapzND [(N0, x0), (N1, x1)] φ
+    ∧ boxSum [n0 + 1, n1 + 1, n2 + 1] (admixND 3 [n0, n1, n2] [(N0, x0), (N1, x1), (N2, x2)] p φ)
+        = trapzND [(N0, x0), (N1, x1), (N2, x2)] φ
+    ∧ boxSum [n0 + 1, n1 + 1, n2 + 1, n3 + 1] (admixND 4 [n0, n1, n2, n3] [(N0, x0), (N1, x1), (N2, x2), (N3, x3)] p φ)
+        = trapzND [(N0, x0), (N1, x1), (N2, x2), (N3, x3)] φ :=
+  ⟨admix_mass_two n0 n1 N0 N1 x0 x1 p φ, admix_mass_three n0 n1 n2 N0 N1 N2 x0 x1 x2 p φ,
+   admix_mass_four n0 n1 n2 n3 N0 N1 N2 N3 x0 x1 x2 x3 p φ⟩
+
+/-! ## inbreeding -/
+
+/-- **the beta-binomial sampling probabilities of one individual sum to one**, every ploidy P, every a + b > 0
+    (`betaBinom P i a b` = exp(`BetaBinomln(i, P, a, b)`): rising-factorial form of C(P,i)·B(i+a, P−i+b)/B(a,b)) -/
+theorem C05_betabinom_sum (P : ℕ) (a b : ℚ) (hab : 0 < a + b) : ∑ i ∈ range (P+1), betaBinom P i a b = 1 :=
+  betaBinom_sum P a b hab
+
+example : (0 : ℚ) < 1/3 + 5/3 := by norm_num
+
+/-- the parameters the code passes satisfy the hypothesis: alpha + beta = (1−F)/F > 0 at interior grid points for 0 < F < 1 -/
+theorem C05_betabinom_params (x F : ℚ) (hF0 : 0 < F) (hF1 : F < 1) :
+    0 < inbAlphaMid 1 0 x F + inbBetaMid 1 0 x F := by
+  simp only [inbAlphaMid, inbBetaMid]
+  have h : 0 < (1 - F) / F := div_pos (by linarith) hF0
+  have e : x * ((1 - F) / F) + (1 - x) * ((1 - F) / F) = (1 - F) / F := by ring
+  rw [e]; exact h
 
 /-! ## wiring read off the source -/
 
